@@ -119,23 +119,88 @@ def diff(a, b):
 _PRIMS = (bool, int, float, str, bytes, type(None))
 
 
-def shallow_digest():
-    """Cheap digest of the module-level state of ctparse.* (one level deep): used at every line event to find the points
-    at which a thread WRITES shared state.  Containers contribute identity, length and (when small) their printed contents;
-    scalars their value; other objects their identity (rebinding a global is a write, mutation inside a foreign object is not seen
-    here - the full fingerprint covers that at the end of each execution)."""
-    acc = []
-    for name in sorted(sys.modules):
-        if name == "ctparse" or name.startswith("ctparse."):
-            mod = sys.modules[name]
-            if mod is None:
+class Watch:
+    """Leaves of the shared state of ctparse.* discovered once (module globals, class attributes, function attributes and
+    defaults, attributes of module-level instances down to the model tables), re-read cheaply at every line event."""
+
+    def __init__(self):
+        self.leaves = []  # (owner mapping or None, key, fixed object or None)
+        self.owners = []
+        seen = set()
+
+        def visit(owner, key, v, depth):
+            self.leaves.append((owner, key))
+            if depth <= 0 or id(v) in seen:
+                return
+            t = type(v)
+            if t in _PRIMS:
+                return
+            if t in (list, dict, set, bytearray, tuple):
+                # elements of small containers are watched too (registry -> (wrapper, predicate list), model -> tables)
+                if t in (list, tuple, dict) and len(v) <= 200 and id(v) not in seen:
+                    seen.add(id(v))
+                    items = v.items() if t is dict else enumerate(v)
+                    holder = v if t is not tuple else dict(enumerate(v))
+                    for kk, w in list(items):
+                        if type(w) not in _PRIMS:
+                            visit(holder, kk, w, depth - 1)
+                return
+            seen.add(id(v))
+            sub = None
+            if isinstance(v, type) and (getattr(v, "__module__", "") or "").startswith("ctparse"):
+                sub = v.__dict__
+            elif isinstance(v, types.FunctionType) and (getattr(v, "__module__", "") or "").startswith("ctparse"):
+                sub = v.__dict__
+                if v.__defaults__:
+                    for i, w in enumerate(v.__defaults__):
+                        if type(w) in (list, dict, set):
+                            self.leaves.append(({i: w}, i))
+            elif (getattr(t, "__module__", "") or "").startswith("ctparse") and hasattr(v, "__dict__"):
+                sub = v.__dict__
+            if sub is not None:
+                self.owners.append(sub)
+                for a in list(sub.keys()):
+                    if not (a.startswith("__") and a.endswith("__")):
+                        visit(sub, a, sub[a], depth - 1)
+
+        for name in sorted(sys.modules):
+            if name == "ctparse" or name.startswith("ctparse."):
+                mod = sys.modules[name]
+                if mod is None:
+                    continue
+                d = vars(mod)
+                self.owners.append(d)
+                for k in list(d.keys()):
+                    visit(d, k, d[k], 4)
+
+    def digest(self):
+        acc = [len(o) for o in self.owners]
+        ap = acc.append
+        for owner, key in self.leaves:
+            try:
+                v = owner[key]
+            except KeyError:
+                ap(None)
                 continue
-            for k, v in vars(mod).items():
-                t = type(v)
-                if t in (list, dict, set, bytearray):
-                    acc.append((k, id(v), len(v), hash(repr(v)) if len(v) <= 32 else 0))
-                elif t in _PRIMS:
-                    acc.append((k, v))
-                else:
-                    acc.append((k, id(v)))
-    return hash(tuple(acc))
+            t = type(v)
+            if t is list or t is set:
+                n = len(v)
+                ap((id(v), n, tuple(w if type(w) in _PRIMS else id(w) for w in v) if n <= 16 else 0))
+            elif t is dict:
+                n = len(v)
+                ap((id(v), n, tuple((kk, w if type(w) in _PRIMS else id(w)) for kk, w in v.items()) if n <= 16 else 0))
+            elif t in _PRIMS:
+                ap(v)
+            else:
+                ap(id(v))
+        return hash(tuple(acc))
+
+
+_watch = None
+
+
+def shallow_digest():
+    global _watch
+    if _watch is None:
+        _watch = Watch()
+    return _watch.digest()
